@@ -142,6 +142,38 @@ func vfRunTracerOps(ops []vfTrOp) (viol error, invalid bool) {
 		case "clear":
 			tr.Clear(name(op.Name))
 			delete(model, op.Name)
+		case "await-dead":
+			// a wait whose context is over before it begins: it still obtains a trace that was completed before, fails at
+			// once for a cleared / unknown name, and returns the context error at once while the trace is pending
+			dead, cancelDead := context.WithCancel(context.Background())
+			cancelDead()
+			type out struct {
+				id  string
+				err error
+			}
+			ch := make(chan out, 1)
+			go func(n string) {
+				trace, err := tr.Await(dead, n)
+				o := out{err: err}
+				if trace != nil && trace.Err != nil {
+					o.id = trace.Err.Error()
+				}
+				ch <- o
+			}(name(op.Name))
+			select {
+			case o := <-ch:
+				s := model[op.Name]
+				switch {
+				case s == nil && o.err == nil:
+					return verifkit.Violf("await-wrong-result", "after %s: a wait on a cleared or unknown name returned trace %q", after, o.id), false
+				case s != nil && s.done && (o.err != nil || o.id != s.id):
+					return verifkit.Violf("await-wrong-trace", "after %s: the trace was completed before the wait began (its context already over): want trace %q, got %q err %v", after, s.id, o.id, o.err), false
+				case s != nil && !s.done && (o.err == nil || !errors.Is(o.err, context.Canceled)):
+					return verifkit.Violf("await-wrong-result", "after %s: a wait with a finished context on a pending trace returned (%q, %v), want the context error", after, o.id, o.err), false
+				}
+			case <-time.After(vfStepTimeout):
+				return verifkit.Violf("await-hang", "after %s: a wait with a finished context did not return within %v", after, vfStepTimeout), false
+			}
 		case "await":
 			ws := waiters[op.Waiter]
 			if ws != nil && ws.blocked {
@@ -256,7 +288,7 @@ func vfTrClassify(c vfTrCase) ([]string, bool) {
 func vfTracerAlphabet(names, waiters int) []vfTrOp {
 	var ops []vfTrOp
 	for n := 0; n < names; n++ {
-		ops = append(ops, vfTrOp{Op: "init", Name: n}, vfTrOp{Op: "complete", Name: n}, vfTrOp{Op: "clear", Name: n})
+		ops = append(ops, vfTrOp{Op: "init", Name: n}, vfTrOp{Op: "complete", Name: n}, vfTrOp{Op: "clear", Name: n}, vfTrOp{Op: "await-dead", Name: n})
 		for w := 0; w < waiters; w++ {
 			ops = append(ops, vfTrOp{Op: "await", Name: n, Waiter: w})
 		}
